@@ -346,6 +346,7 @@ def dataset_job(job):
     sn, sd = rng.choice([(1, 2), (3, 4), (1, 1), (1, 1), (5, 4), (3, 2)])
     m = rng.choice([1, 8, 16, 32])
     cr = rng.choice([16, 32])
+    crw = rng.choice([16, 32, 24])   # crop_hw = (cr, crw): non-square crops included
     anchor = rng.choice([0] + list(range(1, n_nodes + 1)))
     aug = rng.choice([(0, 0), (0, 1), (1, 1), (1, 0)])
     geo = _aug_geo_params(rng)
@@ -376,7 +377,7 @@ def dataset_job(job):
             elif ds_name == "CentroidDataset":
                 ds = cd.CentroidDataset(confmap_head_config=head, **kw)
             else:
-                ds = cd.CenteredInstanceDataset(crop_hw=(cr, cr), confmap_head_config=head, **kw)
+                ds = cd.CenteredInstanceDataset(crop_hw=(cr, crw), confmap_head_config=head, **kw)
             fill = rec.fill
             out = []
             # every index is read twice (a second epoch): registration must hold on EVERY read, also when an
@@ -411,7 +412,7 @@ def dataset_job(job):
         if ds_name in ("BottomUpDataset", "CentroidDataset") and max_inst != 1:
             for i in range(len(insts), max_inst):
                 kp0 += [[0, 0, 0, i + 1, n + 1] for n in range(n_nodes)]
-        cfg = dict(ds=ds_name, h=h, w=w, maxH=max_hw[0] or 0, maxW=max_hw[1] or 0, sn=sn, sd=sd, m=m, crH=cr, crW=cr,
+        cfg = dict(ds=ds_name, h=h, w=w, maxH=max_hw[0] or 0, maxW=max_hw[1] or 0, sn=sn, sd=sd, m=m, crH=cr, crW=crw,
                    anchor=anchor, inst=1, augI=aug[0], augG=aug[1],
                    track="centroids" if ds_name == "CentroidDataset" else "keypoints", kp0=kp0)
         ev = _assemble(raw, sample, ds_name, (h, w), thresh, True)
